@@ -795,6 +795,17 @@ def main():
         if seen_hp < 9 or rc0 != 0:
             ck.violation("hashtable-at-prime-size:incomplete", "the hash-table probe at prime sizes answered %d sizes (rc=%d)" % (seen_hp, rc0), {"kind": "crash"}, no_input=True)
         ck.cov["hash_table_prime_sizes_probed"] = seen_hp
+        # assign2productShort with a full index array
+        env2 = dict(os.environ, MALLOC_CHECK_="3", MALLOC_PERTURB_="165")
+        import subprocess as _sp
+        pr = _sp.run([exe, "a2pshort"], capture_output=True, text=True, env=env2, timeout=120)
+        got2 = [l.split()[1] for l in pr.stdout.splitlines() if l.startswith("A2PSHORT ")]
+        ck.evaluated(("a2pshort",), nontrivial=True)
+        if got2 != ["ok"]:
+            ck.violation("ssvector-assign2productshort:%s" % (got2[0] if got2 else "no-answer"),
+                         "SSVectorBase::assign2productShort into a result that fills every position: %s (a write behind the index array is reported by the "
+                         "allocator when the vector is freed)" % (got2 or pr.stderr[-200:]),
+                         {"kind": "a2pshort", "replay_note": "harness/C19.cpp a2pShort(): run `MALLOC_CHECK_=3 C19 a2pshort`"})
         # LPColBase / LPRowBase as values
         rc1, out1, err1 = vlib.sh([exe, "lpassign"], timeout=120)
         got = [l.split()[1] for l in out1.splitlines() if l.startswith("LPASSIGN ")]
